@@ -39,7 +39,7 @@ func init() {
 	register("C17", "Decided: default modes, BITS table, mode configuration of every operand object, emission-time mode vs traversal-time writer (known finding).",
 		ruleE5, ruleModeDefaults, ruleM17w, ruleV17, ruleO3, ruleC9cfg, ruleZ3c, ruleF8size, ruleP3, ruleBranch, ruleSetters, ruleE3)
 	register("C18", "Decided: comparator orientation/order, sign-extendable set, canonical signed-8 tests, shared table query flags, hand-written short forms. Not decided: minimality for every operand combination.",
-		ruleF8c, ruleF8a, ruleI1, ruleI1s, ruleT5, ruleK18, ruleA18, ruleT18acc, ruleT5u, ruleE1, ruleE1b, ruleE3, ruleE3s, ruleF1, ruleF8size, ruleF8q, ruleD2, ruleK18p)
+		ruleF8c, ruleF8irr, ruleF8a, ruleI1, ruleI1s, ruleT5, ruleK18, ruleA18, ruleT18acc, ruleT5u, ruleE1, ruleE1b, ruleE3, ruleE3s, ruleF1, ruleF8size, ruleF8q, ruleD2, ruleK18p)
 	register("C19", "Decided: exit-code table, open flags, no failing exit after a successful write. Not decided: the Shift_JIS / UTF-8 decoding clause.",
 		ruleT9, ruleP6, ruleO19, ruleL19)
 }
